@@ -215,6 +215,10 @@ def run(prog: Program, rep: Report, tier: str):
     from .c09 import rule_bnaf_raw_masked
     rule_bnaf_raw_masked(prog, rep, "C04.bnaf-mask")
     rule_spline_leaves(prog, rep, "C04.static-interval")
+    from .c05 import rule_param_ctors
+    rule_param_ctors(prog, rep, "C04.param-shape", declare=True)
+    from .leaves import rule_static_fields
+    rule_static_fields(prog, rep, "C04.static-fields", bijection_classes(prog), minimum=8)
     if tier == "thorough":
         from ..audit import audit_generic
         audit_generic(prog, rep, "C04")
